@@ -25,7 +25,8 @@ theorem set_last_eq {α} (l : List α) (i : Nat) (a : α) (h : i + 1 = l.length)
 
 theorem ring_write (w : LW) (l : String) (hc : 0 < w.logs.length) (hi : w.index < w.logs.length) :
     ring (w.write l) = (ring w).drop 1 ++ [l] ∧ (w.write l).logs.length = w.logs.length ∧
-    (w.write l).index = (w.index + 1) % w.logs.length := by
+    (w.write l).index = (w.index + 1) % w.logs.length ∧
+    (w.write l).full = (w.full || ((w.index + 1) % w.logs.length == 0)) := by
   have hne : w.logs.length ≠ 0 := by omega
   simp only [LW.write, hne, ↓reduceIte, List.length_set, ring, and_true]
   have hdrop1 : (w.logs.drop w.index ++ w.logs.take w.index).drop 1 = w.logs.drop (w.index + 1) ++ w.logs.take w.index := by
@@ -52,11 +53,13 @@ def writes (w : LW) (ls : List String) : LW := ls.foldl LW.write w
 
 /-- The ring holds the last `cap` entries of (`cap` empty slots followed by the history). -/
 def RingInv (cap : Nat) (w : LW) (h : List String) : Prop :=
-  w.logs.length = cap ∧ w.index = h.length % cap ∧ ring w = (List.replicate cap "" ++ h).drop h.length
+  w.logs.length = cap ∧ w.index = h.length % cap ∧ ring w = (List.replicate cap "" ++ h).drop h.length ∧
+  w.full = decide (cap ≤ h.length)
 
 theorem RingInv.new (cap : Nat) (hc : 0 < cap) : RingInv cap (LW.new cap) [] := by
-  refine ⟨by simp [LW.new], by simp [LW.new], ?_⟩
-  simp [ring, LW.new]
+  refine ⟨by simp [LW.new], by simp [LW.new], ?_, ?_⟩
+  · simp [ring, LW.new]
+  · simp [LW.new]; omega
 
 theorem drop_succ_snoc {α} (X : List α) (k : Nat) (l : α) (hk : k + 1 ≤ X.length) :
     (X ++ [l]).drop (k + 1) = (X.drop k).drop 1 ++ [l] := by
@@ -64,15 +67,25 @@ theorem drop_succ_snoc {α} (X : List α) (k : Nat) (l : α) (hk : k + 1 ≤ X.l
 
 theorem ringInv_write {cap : Nat} (hc : 0 < cap) {w : LW} {h : List String} (hi : RingInv cap w h) (l : String) :
     RingInv cap (w.write l) (h ++ [l]) := by
-  obtain ⟨h1, h2, h3⟩ := hi
+  obtain ⟨h1, h2, h3, h4⟩ := hi
   have hidx : w.index < w.logs.length := by rw [h1, h2]; exact Nat.mod_lt _ hc
-  obtain ⟨r1, r2, r3⟩ := ring_write w l (by omega) hidx
-  refine ⟨r2.trans h1, ?_, ?_⟩
+  obtain ⟨r1, r2, r3, r4⟩ := ring_write w l (by omega) hidx
+  refine ⟨r2.trans h1, ?_, ?_, ?_⟩
   · rw [r3, h1, h2, Nat.mod_add_mod, List.length_append, List.length_singleton]
   · rw [r1, h3]
     have e : List.replicate cap "" ++ (h ++ [l]) = (List.replicate cap "" ++ h) ++ [l] := by simp
     rw [e, List.length_append, List.length_singleton]
     exact (drop_succ_snoc _ _ _ (by simp; omega)).symm
+  · rw [r4, h4, h1, h2, Nat.mod_add_mod, List.length_append, List.length_singleton]
+    by_cases hk : cap ≤ h.length
+    · have : cap ≤ h.length + 1 := by omega
+      simp [hk, this]
+    · have hlt : h.length < cap := by omega
+      by_cases he : h.length + 1 = cap
+      · simp [hk, he]
+      · have : (h.length + 1) % cap = h.length + 1 := Nat.mod_eq_of_lt (by omega)
+        have h2' : ¬ cap ≤ h.length + 1 := by omega
+        simp [hk, this, h2']
 
 theorem ringInv_writes {cap : Nat} (hc : 0 < cap) (ls : List String) : ∀ {w : LW} {h : List String},
     RingInv cap w h → RingInv cap (writes w ls) (h ++ ls) := by
@@ -85,44 +98,27 @@ theorem ringInv_writes {cap : Nat} (hc : 0 < cap) (ls : List String) : ∀ {w : 
 
 /-- What a newly registered handler receives first. -/
 def backlog (w : LW) : List String :=
-  (if w.logs.getD w.index "" != "" then w.logs.drop w.index else []) ++ w.logs.take w.index
+  (if w.full then w.logs.drop w.index else []) ++ w.logs.take w.index
 
-theorem backlog_eq {cap : Nat} (hc : 0 < cap) {w : LW} {h : List String} (hi : RingInv cap w h)
-    (hne : ∀ l ∈ h, l ≠ "") : backlog w = h.drop (h.length - cap) := by
-  obtain ⟨h1, h2, h3⟩ := hi
+theorem backlog_eq {cap : Nat} (hc : 0 < cap) {w : LW} {h : List String} (hi : RingInv cap w h) :
+    backlog w = h.drop (h.length - cap) := by
+  obtain ⟨h1, h2, h3, h4⟩ := hi
   have hidx : w.index < w.logs.length := by rw [h1, h2]; exact Nat.mod_lt _ hc
-  have hhead : w.logs.getD w.index "" = (ring w).getD 0 "" := by
-    simp only [ring, List.getD_eq_getElem?_getD]
-    rw [List.getElem?_append_left (by simp; omega)]
-    simp
   unfold backlog
-  rw [hhead, h3]
+  rw [h4]
   by_cases hk : cap ≤ h.length
-  · -- the ring has wrapped: the oldest slot holds a real line
-    have hdrop : (List.replicate cap "" ++ h).drop h.length = h.drop (h.length - cap) := by
+  · have hdrop : (List.replicate cap "" ++ h).drop h.length = h.drop (h.length - cap) := by
       rw [List.drop_append]
       simp
       omega
-    have hmem : (h.drop (h.length - cap)).getD 0 "" ∈ h := by
-      have : 0 < (h.drop (h.length - cap)).length := by simp; omega
-      rw [List.getD_eq_getElem?_getD, List.getElem?_eq_getElem this]
-      exact List.mem_of_mem_drop (List.getElem_mem _)
-    rw [hdrop]
-    have := hne _ hmem
-    simp only [bne_iff_ne, ne_eq, this, not_false_eq_true, ↓reduceIte]
+    simp only [hk, decide_true, ↓reduceIte]
     have : w.logs.drop w.index ++ w.logs.take w.index = ring w := rfl
     rw [this, h3, hdrop]
   · have hlt : h.length < cap := by omega
     have hdrop : (List.replicate cap "" ++ h).drop h.length = List.replicate (cap - h.length) "" ++ h := by
       rw [List.drop_append_of_le_length (by simp; omega)]
       simp
-    rw [hdrop]
-    have hz : (List.replicate (cap - h.length) "" ++ h).getD 0 "" = "" := by
-      rw [List.getD_eq_getElem?_getD, List.getElem?_append_left (by simp; omega)]
-      rw [List.getElem?_replicate]
-      have : 0 < cap - h.length := by omega
-      simp [this]
-    simp only [hz, bne_self_eq_false, Bool.false_eq_true, ↓reduceIte, List.nil_append]
+    simp only [hk, decide_false, Bool.false_eq_true, ↓reduceIte, List.nil_append]
     have hidx' : w.index = h.length := by rw [h2]; exact Nat.mod_eq_of_lt hlt
     have hr : w.logs.drop w.index ++ w.logs.take w.index = List.replicate (cap - h.length) "" ++ h := by
       have : w.logs.drop w.index ++ w.logs.take w.index = ring w := rfl
